@@ -1,7 +1,402 @@
 package main
 
-// Replay of solver models against the real code (harnesses are registered per function).
+// Replay of solver models against the real code.
+//
+// Built for the class of obligations that needs no oracle: `nopanic[...]`. When such an
+// obligation fails with a model, and the function under contract is a package-level function
+// whose parameters are integers, booleans, byte strings or lists of byte strings, the model is
+// asked again for concrete argument values (lengths and leading contents), a Go test that calls
+// the real function with them is injected into the real package (`go test -overlay`, nothing is
+// written to the repository), and the obligation counts as replayed when the call panics.
+// Everything else keeps the line ending `no-failing-input-found`.
+
+import (
+	"bytes"
+	"context"
+	"encoding/json"
+	"fmt"
+	"go/types"
+	"math/big"
+	"os"
+	"os/exec"
+	"path/filepath"
+	"strings"
+	"time"
+
+	"golang.org/x/tools/go/ssa"
+)
+
+const replayMaxBytes = 96    // contents asked from the model per byte string
+const replayMaxItems = 6     // byte strings per list
+const replayMaxLen = 1 << 16 // longer arguments are not materialised
+
+type replayArg struct {
+	kind  string // int, bool, bytes, byteslist
+	typ   types.Type
+	terms []string // SMT terms whose values are needed, in order
+}
 
 func tryReplay(id string, g *OblGroup, run *checkRun) (bool, string) {
-	return false, ""
+	if g.Kind != "nopanic" {
+		return false, ""
+	}
+	fn := run.fns[g.Func]
+	var fr *FuncResult
+	for _, r := range run.results {
+		if r.Key == g.Func {
+			fr = r
+		}
+	}
+	if fn == nil || fr == nil || fn.Signature.Recv() != nil || fn.Pkg == nil || fn.TypeParams().Len() > 0 {
+		return false, ""
+	}
+	var o *Obligation
+	for _, c := range g.Failed {
+		if c.Res != nil && strings.HasPrefix(c.Res.Status, "sat") && c.Query != "" {
+			o = c
+			break
+		}
+	}
+	if o == nil {
+		return false, ""
+	}
+	q := o.Query
+	cut := strings.LastIndex(q, "(check-sat)")
+	if cut < 0 {
+		return false, ""
+	}
+	base := q[:cut]
+	declared := func(name string) bool { return strings.Contains(base, "(declare-const "+quoteSym(name)+" ") }
+	// the flattened parameter terms, in order (see VerifyFunc)
+	in := fr.Inputs
+	pos := 0
+	next := func() (string, bool) {
+		if pos >= len(in) {
+			return "", false
+		}
+		t := in[pos].String()
+		pos++
+		return t, true
+	}
+	var args []replayArg
+	heap := func(name, arr, idx string) string {
+		if !declared(name) {
+			return "0"
+		}
+		return fmt.Sprintf("(select (select %s %s) %s)", quoteSym(name), arr, idx)
+	}
+	for i := 0; i < fn.Signature.Params().Len(); i++ {
+		pt := fn.Signature.Params().At(i).Type()
+		switch u := pt.Underlying().(type) {
+		case *types.Basic:
+			t, ok := next()
+			if !ok {
+				return false, ""
+			}
+			switch {
+			case u.Info()&types.IsInteger != 0:
+				args = append(args, replayArg{kind: "int", typ: pt, terms: []string{t}})
+			case u.Info()&types.IsBoolean != 0:
+				args = append(args, replayArg{kind: "bool", typ: pt, terms: []string{t}})
+			default:
+				return false, "" // strings and floats are opaque in the encoding
+			}
+		case *types.Slice:
+			arr, ok1 := next()
+			off, ok2 := next()
+			ln, ok3 := next()
+			_, ok4 := next()
+			if !(ok1 && ok2 && ok3 && ok4) {
+				return false, ""
+			}
+			if b, isB := u.Elem().Underlying().(*types.Basic); isB && b.Kind() == types.Uint8 {
+				a := replayArg{kind: "bytes", typ: pt, terms: []string{arr, ln}}
+				for k := 0; k < replayMaxBytes; k++ {
+					a.terms = append(a.terms, heap("H0:[]uint8", arr, fmt.Sprintf("(+ %s %d)", off, k)))
+				}
+				args = append(args, a)
+				continue
+			}
+			if inner, isS := u.Elem().Underlying().(*types.Slice); isS {
+				if b, isB := inner.Elem().Underlying().(*types.Basic); isB && b.Kind() == types.Uint8 {
+					a := replayArg{kind: "byteslist", typ: pt, terms: []string{arr, ln}}
+					for j := 0; j < replayMaxItems; j++ {
+						idx := fmt.Sprintf("(+ %s %d)", off, j)
+						ia := heap("H0:[][]uint8#arr", arr, idx)
+						io := heap("H0:[][]uint8#off", arr, idx)
+						il := heap("H0:[][]uint8#len", arr, idx)
+						a.terms = append(a.terms, ia, il)
+						for k := 0; k < replayMaxBytes; k++ {
+							a.terms = append(a.terms, heap("H0:[]uint8", ia, fmt.Sprintf("(+ %s %d)", io, k)))
+						}
+					}
+					args = append(args, a)
+					continue
+				}
+			}
+			return false, ""
+		default:
+			return false, ""
+		}
+	}
+	var all []string
+	for _, a := range args {
+		all = append(all, a.terms...)
+	}
+	if len(all) == 0 {
+		return false, ""
+	}
+	ext := base + "(check-sat)\n(get-value (" + strings.Join(all, "\n ") + "))\n"
+	tmp, err := os.MkdirTemp("/var/tmp", "gocvreplay")
+	if err != nil {
+		return false, ""
+	}
+	defer os.RemoveAll(tmp)
+	qf := filepath.Join(tmp, "q.smt2")
+	os.WriteFile(qf, []byte(ext), 0o644)
+	ctx, cancel := context.WithTimeout(context.Background(), 20*time.Second)
+	defer cancel()
+	out, _ := exec.CommandContext(ctx, "z3-new", qf).CombinedOutput()
+	lines := strings.SplitN(strings.TrimSpace(string(out)), "\n", 2)
+	if len(lines) < 2 || strings.TrimSpace(lines[0]) != "sat" {
+		return false, "model could not be re-established for a replay (" + strings.TrimSpace(lines[0]) + ")"
+	}
+	vals, ok := parseGetValue(lines[1], len(all))
+	if !ok {
+		return false, "model values could not be parsed for a replay"
+	}
+	// Go literals for the arguments
+	vi := 0
+	take := func() *big.Int { v := vals[vi]; vi++; return v }
+	byteLit := func(n int, cont []*big.Int) string {
+		var b strings.Builder
+		b.WriteString("[]byte{")
+		for k := 0; k < n; k++ {
+			v := int64(0)
+			if k < len(cont) && cont[k] != nil && cont[k].IsInt64() {
+				v = cont[k].Int64() & 0xff
+			}
+			if k > 0 {
+				b.WriteString(", ")
+			}
+			fmt.Fprintf(&b, "%d", v)
+		}
+		b.WriteString("}")
+		return b.String()
+	}
+	var lits []string
+	qual := types.RelativeTo(fn.Pkg.Pkg)
+	for _, a := range args {
+		switch a.kind {
+		case "int":
+			v := take()
+			if v == nil {
+				return false, "model without a value for an argument"
+			}
+			lits = append(lits, fmt.Sprintf("%s(%s)", types.TypeString(a.typ, qual), v.String()))
+		case "bool":
+			v := take()
+			lits = append(lits, fmt.Sprintf("%v", v != nil && v.Sign() != 0))
+		case "bytes":
+			arr, ln := take(), take()
+			cont := vals[vi : vi+replayMaxBytes]
+			vi += replayMaxBytes
+			if arr == nil || ln == nil || !ln.IsInt64() || ln.Int64() < 0 || ln.Int64() > replayMaxLen {
+				return false, "the model's argument is too large to materialise"
+			}
+			if arr.Sign() == 0 {
+				lits = append(lits, "nil")
+			} else {
+				lits = append(lits, byteLit(int(ln.Int64()), cont))
+			}
+		case "byteslist":
+			arr, ln := take(), take()
+			if arr == nil || ln == nil || !ln.IsInt64() || ln.Int64() < 0 || ln.Int64() > replayMaxItems {
+				return false, "the model's argument is too large to materialise"
+			}
+			var items []string
+			for j := 0; j < replayMaxItems; j++ {
+				ia, il := take(), take()
+				cont := vals[vi : vi+replayMaxBytes]
+				vi += replayMaxBytes
+				if int64(j) >= ln.Int64() {
+					continue
+				}
+				if il == nil || !il.IsInt64() || il.Int64() < 0 || il.Int64() > replayMaxLen {
+					return false, "the model's argument is too large to materialise"
+				}
+				if ia == nil || ia.Sign() == 0 {
+					items = append(items, "nil")
+				} else {
+					items = append(items, byteLit(int(il.Int64()), cont))
+				}
+			}
+			if arr.Sign() == 0 {
+				lits = append(lits, "nil")
+			} else {
+				lits = append(lits, "[][]byte{"+strings.Join(items, ", ")+"}")
+			}
+		}
+	}
+	call := fn.Name() + "(" + strings.Join(lits, ", ") + ")"
+	src := fmt.Sprintf(`package %s
+
+import "testing"
+
+// generated by gocv from the solver's model for %s # %s
+func TestVerifReplay(t *testing.T) {
+	defer func() {
+		r := recover()
+		if r == nil {
+			t.Fatalf("REPLAY: the call returned normally")
+		}
+		t.Logf("REPLAY-PANIC: %%v", r)
+	}()
+	%s
 }
+`, fn.Pkg.Pkg.Name(), shortFunc(g.Func), g.Name, call)
+	// where the package lives
+	dir := ""
+	if p := fn.Prog.Fset.Position(fn.Pos()); p.IsValid() {
+		dir = filepath.Dir(p.Filename)
+	}
+	if dir == "" {
+		return false, ""
+	}
+	testFile := filepath.Join(tmp, "replay_test.go")
+	os.WriteFile(testFile, []byte(src), 0o644)
+	ov, _ := json.Marshal(map[string]any{"Replace": map[string]string{filepath.Join(dir, "zz_verif_replay_test.go"): testFile}})
+	ovFile := filepath.Join(tmp, "ov.json")
+	os.WriteFile(ovFile, ov, 0o644)
+	ctx2, cancel2 := context.WithTimeout(context.Background(), 180*time.Second)
+	defer cancel2()
+	cmd := exec.CommandContext(ctx2, "go", "test", "-overlay", ovFile, "-vet=off", "-count=1", "-timeout", "60s", "-run", "^TestVerifReplay$", "-v", ".")
+	cmd.Dir = dir
+	cmd.Env = append(os.Environ(), "GOFLAGS=-mod=mod", "GOPROXY=off")
+	var buf bytes.Buffer
+	cmd.Stdout, cmd.Stderr = &buf, &buf
+	runErr := cmd.Run()
+	outS := buf.String()
+	reproduced := runErr == nil && strings.Contains(outS, "REPLAY-PANIC")
+	text := "generated test (injected into " + dir + " with go test -overlay):\n" + src + "\noutput:\n" + tailLines(outS, 12) + "\n"
+	if reproduced {
+		text += "the real function panics on the solver's input\n"
+	} else {
+		text += "the solver's input did not make the real function panic (the model belongs to the abstraction; the obligation still fails)\n"
+	}
+	return reproduced, text
+}
+
+// parseGetValue reads n values from a z3 (get-value ...) answer: ((term value) (term value) ...).
+func parseGetValue(s string, n int) ([]*big.Int, bool) {
+	// tokenise
+	var toks []string
+	cur := ""
+	inBar := false
+	for _, r := range s {
+		switch {
+		case inBar:
+			cur += string(r)
+			if r == '|' {
+				inBar = false
+			}
+		case r == '|':
+			cur += string(r)
+			inBar = true
+		case r == '(' || r == ')':
+			if cur != "" {
+				toks = append(toks, cur)
+				cur = ""
+			}
+			toks = append(toks, string(r))
+		case r == ' ' || r == '\n' || r == '\t' || r == '\r':
+			if cur != "" {
+				toks = append(toks, cur)
+				cur = ""
+			}
+		default:
+			cur += string(r)
+		}
+	}
+	if cur != "" {
+		toks = append(toks, cur)
+	}
+	p := 0
+	var skip func() bool // skips one s-expression
+	skip = func() bool {
+		if p >= len(toks) {
+			return false
+		}
+		if toks[p] != "(" {
+			p++
+			return true
+		}
+		p++
+		for p < len(toks) && toks[p] != ")" {
+			if !skip() {
+				return false
+			}
+		}
+		p++
+		return true
+	}
+	value := func() (*big.Int, bool) {
+		if p >= len(toks) {
+			return nil, false
+		}
+		switch toks[p] {
+		case "true":
+			p++
+			return big.NewInt(1), true
+		case "false":
+			p++
+			return big.NewInt(0), true
+		case "(":
+			// (- n)
+			if p+3 < len(toks) && toks[p+1] == "-" && toks[p+3] == ")" {
+				v, ok := new(big.Int).SetString(toks[p+2], 10)
+				p += 4
+				if !ok {
+					return nil, true
+				}
+				return v.Neg(v), true
+			}
+			if !skip() {
+				return nil, false
+			}
+			return nil, true
+		}
+		v, ok := new(big.Int).SetString(toks[p], 10)
+		p++
+		if !ok {
+			return nil, true
+		}
+		return v, true
+	}
+	if p >= len(toks) || toks[p] != "(" {
+		return nil, false
+	}
+	p++
+	var out []*big.Int
+	for len(out) < n {
+		if p >= len(toks) || toks[p] != "(" {
+			return nil, false
+		}
+		p++
+		if !skip() { // the term
+			return nil, false
+		}
+		v, ok := value()
+		if !ok {
+			return nil, false
+		}
+		out = append(out, v)
+		if p >= len(toks) || toks[p] != ")" {
+			return nil, false
+		}
+		p++
+	}
+	return out, true
+}
+
+var _ = ssa.NaiveForm
